@@ -149,6 +149,22 @@ def run(ctx):
                      'the task and its successors never run', ctx.loc(f, c))
     if n_sites < 2:
         raise AnalysisError('C12.R5: set_state(RUNNING) sites lost')
+    from mstatic.rules import shared as _sh
+    _sh.build_task_from_command(ctx, r5)
+    # the new attempt is scheduled only after its inbound context was
+    # recomputed and the executions of the old attempt were un-accepted
+    rex = prog.func(RT + '._run_existing')
+    xcfg = ctx.cfg(rex)
+    sch = U.calls_in(xcfg, '_schedule_actions')
+    if not sch:
+        raise AnalysisError('C12.R5: _run_existing no longer schedules')
+    for pre in ('_reset_actions', '_update_inbound_context', 'set_state'):
+        got = [n for n, c in U.calls_in(xcfg, pre)]
+        r5.check(bool(got) and all(
+            xcfg.must_pass(xcfg.entry, got, exits=[n]) for n, c in sch),
+            ctx.construct(rex, extra=pre + ' before scheduling'),
+            'actions of the new attempt can be scheduled without %s() '
+            'having run' % pre, ctx.loc(rex))
     ts = prog.func('mistral.engine.tasks.Task.set_state')
     tcfg = ctx.cfg(ts)
     st = [x for t, x in U.attr_stores(ts.node)
